@@ -99,3 +99,26 @@ module('BmagCyl', 'util', 'B_mag', args=(E.sym('r'), E.sym('theta'), E.sym('phi_
        cfg={'concrete': {'order': 'r2'}}, ret_names=['B'], locals_out=('thetaN',))
 module('BmagBoozer', 'util', 'B_mag', args=(E.sym('r'), E.sym('theta'), E.sym('phi_in')), kwargs={'Boozer_toroidal': True},
        cfg={'concrete': {'order': 'r2'}, 'extra_ns': {}}, ret_names=['B'], locals_out=('thetaN',))
+
+
+# ---------------------------------------------------------------- cylindrical surface output (pointwise parts)
+def variants_order(cfg, orders=('r1', 'r2', 'r3')):
+    out = {}
+    for o in orders:
+        c = dict(cfg)
+        c['concrete'] = dict(cfg.get('concrete', {}), order=o)
+        out[o] = c
+    return out
+
+_f2c = {'method': False, 'stub_pos': 1}
+module('F2C1', 'Frenet_to_cylindrical', 'Frenet_to_cylindrical_1_point', args=(E.sym('phi0'),),
+       variants=variants_order(_f2c, ('r1', 'r2')), ret_names=['total_R', 'total_z', 'total_phi'],
+       locals_out=('total_x', 'total_y'))
+_f2cr = {'method': False, 'stub_pos': 2,
+         'branches': {'Frenet_to_cylindrical_residual > np.pi': False, 'Frenet_to_cylindrical_residual < -np.pi': False}}
+module('F2CRes', 'Frenet_to_cylindrical', 'Frenet_to_cylindrical_residual_func', args=(E.sym('phi0'), E.sym('phi_target')),
+       variants=variants_order(_f2cr, ('r1', 'r2')), ret_names=['residual'], locals_out=('total_x', 'total_y'))
+_torz = {'deps': [('Frenet_to_cylindrical', 'Frenet_to_cylindrical_1_point', {'method': False})]}
+module('ToRZ', 'Frenet_to_cylindrical', 'to_RZ', args=([[E.sym('r'), E.sym('theta'), E.sym('phi0')]],),
+       variants=variants_order(_torz), ret_names=['R', 'Z', 'phi_out'],
+       locals_out=('X_at_this_theta', 'Y_at_this_theta', 'Z_at_this_theta'))
